@@ -15,16 +15,11 @@ package c10
 //   - A window that reaches beyond the end of the sequence is the window "up to
 //     the end"; a negative length (any negative value, not only -1) is the whole
 //     sequence (`if length < 0` in every wrapper).
-//   - 0 <= begin <= math.MaxInt32: the wrappers convert begin to int32 without a
-//     check, a larger begin is a negative offset on the C side (observed on the
-//     pinned tree: SIGSEGV in ManberNoErr for begin = 2^31) — outside the domain
-//     of an `int32 begin`, not generated.
-//   - length >= 0 is generated up to 2^32 - 65 - begin: the C side computes
-//     begin + length + 64 on 32 bits; from 2^32 on the sum wraps to a small window
-//     (observed on the pinned tree: FindAllIndex(seq, 0, 1<<32) scans nothing).
-//     Values from 2^31 - 64 to that bound wrap to a negative int32 and are clipped
-//     to the end of the sequence by the unsigned comparison, which is the right
-//     answer: they are generated and asserted.
+//   - begin and length beyond 32 bits: on the tree as it was pinned the wrappers
+//     converted them to int32 without a check (SIGSEGV in ManberNoErr for begin =
+//     2^31; FindAllIndex(seq, 0, 1<<32) scanned nothing because begin + length + 64
+//     wrapped).  Repaired in the repository (the wrappers clamp the window to the
+//     sequence, known_findings.txt); values up to 2^40 are generated since then.
 //   - Besides the brute-force oracles of checkFind / checkIndel, two consistency
 //     oracles on the real results: windows that scan the same region (every
 //     window reaching the end, every negative length) give identical results for
@@ -46,7 +41,7 @@ import (
 )
 
 // maxWindowSum: begin + length + MAX_PAT_LEN must stay below 2^32 (see above).
-const maxWindowSum = 1<<32 - 1
+const maxWindowSum = 1<<40 // (was 2^32-1 until the wrappers clamped the window to the sequence: see known_findings.txt)
 
 // windowCase: sequence = Unit x Repeats + Seq + Unit x After + Tail (compact
 // form of the long sequences), one pattern, one window.
@@ -84,7 +79,7 @@ func (c windowCase) String() string {
 }
 
 func (c windowCase) inDomain() bool {
-	if c.Begin < 0 || c.Begin > math.MaxInt32 {
+	if c.Begin < 0 || c.Begin > 1<<40 {
 		return false
 	}
 	return c.Length < 0 || c.Begin+c.Length+64 <= maxWindowSum
@@ -264,11 +259,11 @@ func drawEdgeWindow(t *rapid.T, n, patlen, at int) (begin, length int, labels []
 	case "2^31-64":
 		begin = math.MaxInt32 - 63
 	case "2^31-1":
-		begin = math.MaxInt32
+		begin = math.MaxInt32 + pick(t, "wbegin_beyond", 0, 0, 1, 2, 1<<31, 1<<32, 1<<32+1, 1<<33)
 	default:
 		begin = rapid.IntRange(0, n+1).Draw(t, "wbegin")
 	}
-	begin = min(max(begin, 0), math.MaxInt32)
+	begin = min(max(begin, 0), 1<<40)
 	rest := n - begin
 	lk := pick(t, "wlength_kind", "negative", "negative", "small", "rest", "rest", "rest", "copy_end", "n", "2^k", "2^k", "2^k", "2^k-64-begin", "2^k-64-begin", "no_limit", "no_limit", "no_limit", "max", "any")
 	switch lk {
@@ -287,7 +282,7 @@ func drawEdgeWindow(t *rapid.T, n, patlen, at int) (begin, length int, labels []
 	case "2^k-64-begin":
 		length = 1<<pick(t, "wlength_pow", 15, 16, 31, 31, 32) - 64 - begin + pick(t, "wlength_off", -1, 0, 1)
 	case "no_limit":
-		length = pick(t, "wlength_nolimit", 999999999, 2000000000, math.MaxInt32-65, math.MaxInt32-64, math.MaxInt32-63, math.MaxInt32-1, math.MaxInt32, math.MaxInt32, 1<<31, 1<<31+1, 3<<30)
+		length = pick(t, "wlength_nolimit", 999999999, 2000000000, math.MaxInt32-65, math.MaxInt32-64, math.MaxInt32-63, math.MaxInt32-1, math.MaxInt32, math.MaxInt32, 1<<31, 1<<31+1, 3<<30, 1<<32-65, 1<<32-64, 1<<32-1, 1<<32, 1<<32+1, 1<<33, 5000000000)
 	case "max":
 		length = maxWindowSum - 64 - begin - pick(t, "wlength_off", 0, 1, 2)
 	default:
